@@ -630,6 +630,39 @@ theorem LeafInv.sem (rx : Nat → Val → Bool) (ev : Event) (rules : List Rule)
     simp only [BitVec.shiftLeft_zero, List.nil_append, List.drop_zero] at this
     rw [this, hpick]
 
+/-! ### Go iterates `keyMap` and `bitsRegexes` in random order: the result does not depend on it -/
+
+theorem alookup_perm [DecidableEq κ] {l l' : List (κ × β)} (hnd : (l.map (·.1)).Nodup) (hp : l.Perm l') (k : κ) :
+    alookup k l = alookup k l' := by
+  have hnd' : (l'.map (·.1)).Nodup := (List.Perm.nodup_iff (List.Perm.map _ hp)).mp hnd
+  cases h : alookup k l with
+  | some v => exact (alookup_of_mem_nodup hnd' ((List.Perm.mem_iff hp).mp (alookup_mem h))).symm
+  | none =>
+    cases h' : alookup k l' with
+    | none => rfl
+    | some v' =>
+      have := alookup_of_mem_nodup hnd ((List.Perm.mem_iff hp).mpr (alookup_mem h'))
+      rw [h] at this; exact absurd this (by simp)
+
+theorem LeafInv.perm {rules keys keys'} (h : LeafInv rules keys) (hp : keys.Perm keys') : LeafInv rules keys' := by
+  refine ⟨h.len, h.wf, (List.Perm.nodup_iff (List.Perm.map _ hp)).mp h.keys.1, ?_⟩
+  intro k
+  rw [← alookup_perm h.keys.1 hp k]
+  exact h.keys.2 k
+
+theorem KMOK.permRx {P km} (h : KMOK P km) {es : List (W × Nat)} (hp : km.bitsRegexes.Perm es) :
+    KMOK P { km with bitsRegexes := es } :=
+  ⟨h.bits, h.any, h.value, h.deep,
+   fun e he => h.rx1 e ((List.Perm.mem_iff hp).mpr he),
+   fun i id hi => (List.Perm.mem_iff hp).mp (h.rx2 i id hi)⟩
+
+theorem kmMatch_permRx {P km} (h : KMOK P km) {es : List (W × Nat)} (hp : km.bitsRegexes.Perm es)
+    (rx : Nat → Val → Bool) (cur : W) (v : Val) :
+    kmMatch rx { km with bitsRegexes := es } cur v = kmMatch rx km cur v := by
+  apply BitVec.eq_of_getLsbD_eq
+  intro i _
+  rw [kmMatch_sem (h.permRx hp) rx cur v i, kmMatch_sem h rx cur v i]
+
 /-- the state leaves of the model satisfy the law the tree proof needs -/
 theorem leafLaw (rx : Nat → Val → Bool) : LeafLaw rx LeafInv :=
   ⟨LeafInv.empty, LeafInv.add, fun ev rules keys h => LeafInv.sem rx ev rules keys h⟩
